@@ -46,6 +46,20 @@ TOrders == /\ E.k = "Orders" /\ UNCHANGED <<map, n>>
                  LET D == DecDictE(FromJson(E.tables[i].cells), E.tables[i].roots[1] + 1, n) IN
                  D.ok /\ {<<BitsToStr(D.items[j].k), BitsToStr(D.items[j].v.b)>> : j \in 1..Len(D.items)} = AsSet(E.items)
 
+\* Subset: ConfigParams.CloneKeepingSubsetOfKeys on a decoded configuration dictionary (32-bit ids -> ^Cell; the value is
+\* named by the 32 bits stored in the referenced cell): the clone maps exactly the requested ids that exist, whatever the
+\* order or multiplicity of the request, lists them in ascending order, and encodes to a dictionary denoting that mapping
+TSubset == /\ E.k = "Subset" /\ UNCHANGED <<map, n>> /\ n = 32 /\ E.err = ""
+           /\ LET req  == {E.req[i] : i \in 1..Len(E.req)}
+                  want == {p \in AsSet(E.src) : p[1] \in req}
+              IN /\ AsSet(E.items) = want /\ Len(E.items) = Cardinality(want) /\ StrSorted(E.items) /\ WidthOK(E.items)
+                 /\ want # {} =>
+                      LET T == FromJson(E.cells)
+                          D == DecEdge(T, E.roots[1] + 1, 32, <<>>)
+                      IN /\ D.ok /\ Len(D.items) = Cardinality(want)
+                         /\ \A i \in 1..Len(D.items) : Len(D.items[i].v.b) = 0 /\ Len(D.items[i].v.r) = 1
+                         /\ {<<BitsToStr(D.items[i].k), BitsToStr(T[D.items[i].v.r[1]].b)>> : i \in 1..Len(D.items)} = want
+
 \* Load: a dictionary written by another implementation (any label forms) decodes to the map it denotes,
 \* listed in ascending key-bit order
 TLoad == /\ E.k = "Load" /\ E.err = "" /\ n' = n
@@ -58,7 +72,7 @@ TLoad == /\ E.k = "Load" /\ E.err = "" /\ n' = n
 
 TraceInit == l \in Starts /\ seg = l /\ map = {} /\ n = 0
 TraceNext == /\ l <= N /\ (l # seg => Trace[l].k # "Reset")
-             /\ (TReset \/ TPut \/ TGet \/ TEnc \/ TDec \/ TOrders \/ TLoad)
+             /\ (TReset \/ TPut \/ TGet \/ TEnc \/ TDec \/ TOrders \/ TLoad \/ TSubset)
              /\ Consume
 TraceSpec == TraceInit /\ [][TraceNext]_tvars
 Report == \A i \in Starts : PrintT(<<"SEG", i, TLCGet(i)>>)
